@@ -15,8 +15,8 @@ WARM = None
 MAX_PARALLEL = 16
 RULE = (
     "Hypothesis-generated sequences (length 2-10, with repetitions) of (kernel, --arch, options) drawn from the "
-    "shipped kernels plus variants with an unknown mnemonic and with a read-modify-write / memory-composed "
-    "instruction, mixing ISAs, models and --fixed / -f / --ignore-unknown; each sequence runs in one fresh process "
+    "shipped kernels plus variants with an unknown mnemonic, with a read-modify-write / memory-composed "
+    "instruction, and with stack-pointer traffic (write-back through sp; store, sp arithmetic, load), mixing ISAs, models and --fixed / -f / --ignore-unknown; each sequence runs in one fresh process "
     "(a) through osaca.osaca.run element by element and (b) library style with one MachineModel/ArchSemantics per "
     "architecture reused for all its kernels (how Kerncraft embeds OSACA). Oracle: every report equals, apart from "
     "timestamp and file name, the report a fresh process produces for that element alone. Non-trivial: an element "
@@ -39,8 +39,13 @@ def pool(isa_filter=None):
 
 
 VARIANT = {
-    "x86": {"unknown": "foobar %rax, %rbx", "rmw": "addq $1, 8(%rax)", "composed": "vaddpd 16(%rbx), %xmm1, %xmm2"},
-    "aarch64": {"unknown": "foobar x1, x2", "rmw": "ldr x5, [x6], #8", "composed": "str q1, [x7, #16]"},
+    "x86": {"unknown": "foobar %rax, %rbx", "rmw": "addq $1, 8(%rax)", "composed": "vaddpd 16(%rbx), %xmm1, %xmm2",
+            "stack": "pushq %rbp\nmovq %rax, 8(%rsp)\naddq $16, %rsp\nmovq 8(%rsp), %rbx",
+            "stackwb": "popq %rbp"},
+    "aarch64": {"unknown": "foobar x1, x2", "rmw": "ldr x5, [x6], #8", "composed": "str q1, [x7, #16]",
+                # stack-pointer traffic: write-back through sp, then sp arithmetic between a store and a load
+                "stack": "str x1, [sp, #8]\nadd sp, sp, #16\nldr x2, [sp, #8]",
+                "stackwb": "ldp x29, x30, [sp], #16\nstp x29, x30, [sp, #-16]!"},
 }
 
 
@@ -52,10 +57,11 @@ def sequences(draw, kernels):
     for _ in range(draw(st.integers(1, 4))):
         name, isa, lines = draw(st.sampled_from(kernels))
         archs = env.X86_ARCHS if isa == "x86" else env.A64_ARCHS
-        var = draw(st.sampled_from([None, None, "unknown", "rmw", "composed"]))
+        var = draw(st.sampled_from([None, None, "unknown", "rmw", "composed", "stack", "stackwb"]))
         body = list(lines)
         if var:
-            body.insert(draw(st.integers(0, len(body))), VARIANT[isa][var])
+            pos = draw(st.integers(0, len(body)))
+            body[pos:pos] = VARIANT[isa][var].split("\n")
         base.append({"kernel": name, "isa": isa, "variant": var, "code": "\n".join(body) + "\n",
                      "archs": [draw(st.sampled_from(archs)) for _ in range(2)]})
     seq = []
